@@ -413,14 +413,17 @@ func Check(verifRoot, self, prop, tier string, seed uint64) (*Result, error) {
 			nRandom = n
 		}
 	}
-	runs := []*progRun{{name: "corpus", prog: spec.Corpus()}}
+	sorted := spec.Corpus()
+	sorted.Config.Sort = true // field order of the generated code follows names instead of declarations
+	runs := []*progRun{{name: "corpus", prog: spec.Corpus()}, {name: "corpus-sorted", prog: sorted}}
 	for i := 0; i < nRandom; i++ {
 		ps := seed*1000003 + uint64(i)*7919 + 17
 		runs = append(runs, &progRun{name: fmt.Sprintf("random-%d", ps), prog: spec.RandomProgram(ps, spec.RandomOpts{Conv: true})})
 	}
 	if only := os.Getenv("VERIF_ONLY_ROOTS"); only != "" {
-		runs = runs[:1]
+		runs = runs[:2]
 		runs[0].prog.Config.Types = strings.Split(only, ",")
+		runs[1].prog.Config.Types = strings.Split(only, ",")
 	}
 	sem := make(chan struct{}, runtime.NumCPU()/2+1)
 	var wg sync.WaitGroup
@@ -437,7 +440,7 @@ func Check(verifRoot, self, prop, tier string, seed uint64) (*Result, error) {
 				return
 			}
 			n := checks
-			if pi > 0 {
+			if pi > 1 {
 				n = rchecks
 			}
 			pr.results = make([]*ProcResult, len(pr.sim.Roots))
@@ -467,7 +470,7 @@ func Check(verifRoot, self, prop, tier string, seed uint64) (*Result, error) {
 	}
 	for pi, pr := range runs {
 		if pr.err != nil {
-			if pi == 0 {
+			if pi <= 1 {
 				return nil, pr.err // the corpus must build
 			}
 			// a random program whose generated code does not build is a C01 matter: dropped and counted
@@ -499,7 +502,7 @@ func Check(verifRoot, self, prop, tier string, seed uint64) (*Result, error) {
 				}
 				perRoot[r.Root] = map[string]int{"iterations": r.Stats.Iterations, "history_classes": r.Stats.NClasses}
 			}
-			if c, ok := r.Cover["p_terraform.go"]; ok && pi == 0 {
+			if c, ok := r.Cover["p_terraform.go"]; ok && pi <= 1 {
 				// per-process coverage of the same file: the maximum is a lower bound of the union
 				if c[0] > cov[0] {
 					cov = c
